@@ -4,6 +4,7 @@ from engine.checks import c_common
 
 FUNCS = ['Matrix_New', 'matrix_subscr', 'matrix_ass_subscr',
          'matrix_ass_subscr_noalias', 'matrix_set_size',
+         'Matrix_NewFromSequence',
          'matrix_add_generic', 'matrix_sub_generic', 'matrix_mul_generic',
          'matrix_div_generic', 'matrix_rem_generic']
 KINDS = ('extern-requires', 'index-reject', 'index-accept', 'index-address', 'valid-preserved',
